@@ -52,6 +52,10 @@ def classify_size(f, bi, t, bounded_types=()):
                 oa = f.origins(a)
                 if (op_const(a) is not None and "fn" not in op_const(a)) or (oa and all(x[0] in ("lit", "const", "cast", "bin", "un") for x in oa) and any(x[0] in ("lit", "const") for x in oa)):
                     return "min-const", "min(.., constant)"
+                # input-free expression built from constants (e.g. CONST / max(1, size_of::<T>()))
+                if oa and any(x[0] in ("lit", "const") for x in oa) and not any(x[0] in ("arg", "outparam", "field") for x in oa) and \
+                        all(re.search(r"size_of|cmp::max$|cmp::min$|::max$|::min$|checked_div$|unwrap_or$", x[1]) for x in oa if x[0] in ("call", "callres")):
+                    return "min-const", "min(.., constant expression)"
     if any(BOUNDED_HELPERS.search(a[1]) for a in calls):
         return "min-const", "bounded helper"
     for r in reads:
